@@ -257,7 +257,8 @@ pub fn decode_tls(s: &mut Src) -> Case {
         Some(match s.below(4) {
             0 => der::encode(&gen_tree(s), LenForm::Minimal),
             1 => {
-                let n = s.below(40);
+                // never empty: a server that sends nothing leaves both sides waiting (not a fault of interest)
+                let n = 1 + s.below(40);
                 s.bytes(n)
             }
             _ => ntlm::build_ts_request(2, Some(&token), None, None, LenForm::Minimal),
@@ -372,7 +373,7 @@ pub fn check(rep: &Report) {
     rep.assume("adversarial X.509 certificates that OpenSSL accepts but the client's certificate parser rejects are not generated (DESIGN §8)");
     let tier = rep.tier;
     rep.enumerate("field-sweep", true, move |p, n| sweep(tier, p, n), run);
-    rep.random("faults", rep.tier.n(150_000, 6_000_000), 160, decode, run);
+    rep.random("faults", rep.tier.n(400_000, 10_000_000), 160, decode, run);
     rep.random("tls", rep.tier.n(600, 20_000), 200, decode_tls, run);
     rep.require("faults", "challenge", 50_000);
     rep.require("faults", "tree", 5_000);
